@@ -396,6 +396,9 @@ pub struct GzMember {
     pub cut: u16,
     /// stored (level 0) or deflated
     pub stored: bool,
+    /// when set, the member holds exactly this many bytes of the text (instead of the fraction `cut`)
+    #[serde(default)]
+    pub exact: Option<usize>,
 }
 
 #[derive(Clone, Debug, Serialize, Deserialize, PartialEq, Eq)]
@@ -599,7 +602,7 @@ pub fn container(allow_fastq: bool) -> BoxedStrategy<Container> {
     };
     // cut = 0 gives an empty member (the bgzip end-of-file block; `cat a.fa.gz b.fa.gz` of bgzip
     // files puts one in the middle), cut = 65535 a member taking all the remaining bytes
-    let member = || (prop_oneof![8 => any::<u16>(), 2 => Just(0u16), 1 => Just(65535u16)], any::<bool>()).prop_map(|(cut, stored)| GzMember { cut, stored });
+    let member = || (prop_oneof![8 => any::<u16>(), 2 => Just(0u16), 1 => Just(65535u16)], any::<bool>()).prop_map(|(cut, stored)| GzMember { cut, stored, exact: None });
     let gz = prop_oneof![
         3 => Just(None),
         1 => vec(member(), 1..=1).prop_map(Some),
